@@ -40,7 +40,7 @@ func newWorkflowBuilder() *wBuilder {
 	add(&Call{Name: "AddLambdaNode(a,WithStatePreHandler)", Op: "wlambda", K: "a", Pre: true})
 	S, E := compose.START, compose.END
 	for _, in := range []struct{ to, from, m string }{
-		{"a", S, ""}, {"a", S, "x>ax"}, {"b", "a", ""}, {"b", "a", "a>ba"}, {"a", ghost, ""}, {"a", "a", "dep"},
+		{"a", S, ""}, {"a", S, "X>X"}, {"b", "a", ""}, {"b", "a", "a>ba"}, {"a", ghost, ""}, {"a", "a", "dep"},
 		{E, "a", ""}, {E, "a", "a>ea"}, {E, "b", ""}, {E, "b", "b>eb"},
 	} {
 		recv := in.to
@@ -309,13 +309,17 @@ func (m *wModel) Step(c *Call) (Model, Expect, bool) {
 // ---------------------------------------------------------------------------------------------------
 // Workflow builder: the real thing
 
+// wIn is the workflow's input type and node a's input type: a struct, so that a field mapping onto it needs
+// the map-to-struct input converter (a map-typed target would hide a converter that is applied twice).
+type wIn struct{ X string }
+
 type wInst struct {
-	wf *compose.Workflow[map[string]any, map[string]any]
+	wf *compose.Workflow[wIn, map[string]any]
 	h  map[string]*compose.WorkflowNode
 }
 
 func (b *wBuilder) New() Instance {
-	return &wInst{wf: compose.NewWorkflow[map[string]any, map[string]any](), h: map[string]*compose.WorkflowNode{}}
+	return &wInst{wf: compose.NewWorkflow[wIn, map[string]any](), h: map[string]*compose.WorkflowNode{}}
 }
 
 func renderMap(m map[string]any) string {
@@ -340,16 +344,26 @@ func mapLambda(tag string) *compose.Lambda {
 	})
 }
 
+func structLambda(tag string) *compose.Lambda {
+	return compose.InvokableLambda(func(ctx context.Context, in wIn) (map[string]any, error) {
+		return map[string]any{tag: tag + "(X=" + in.X + ")"}, nil
+	})
+}
+
 func (x *wInst) Do(c *Call) StepRes {
 	ctx := context.Background()
-	in := map[string]any{"x": "vx"}
+	in := wIn{X: "vx"}
 	switch c.Op {
 	case "wlambda":
 		var opts []compose.GraphAddNodeOpt
 		if c.Pre {
-			opts = append(opts, compose.WithStatePreHandler(func(ctx context.Context, in map[string]any, s *gst) (map[string]any, error) { return in, nil }))
+			opts = append(opts, compose.WithStatePreHandler(func(ctx context.Context, in wIn, s *gst) (wIn, error) { return in, nil }))
 		}
-		x.h[c.K] = x.wf.AddLambdaNode(c.K, mapLambda(c.K), opts...)
+		l := mapLambda(c.K)
+		if c.K == "a" {
+			l = structLambda(c.K)
+		}
+		x.h[c.K] = x.wf.AddLambdaNode(c.K, l, opts...)
 		return StepRes{}
 	case "winput":
 		var n *compose.WorkflowNode
@@ -384,13 +398,13 @@ func (x *wInst) Do(c *Call) StepRes {
 		if err != nil {
 			return StepRes{HasErr: true, Err: err}
 		}
-		return StepRes{HasErr: true, Run: probe[map[string]any, map[string]any](r, in)}
+		return StepRes{HasErr: true, Run: probe[wIn, map[string]any](r, in)}
 	case "subcompile":
-		r, err := compileAsSub[map[string]any, map[string]any](x.wf)
+		r, err := compileAsSub[wIn, map[string]any](x.wf)
 		if err != nil {
 			return StepRes{HasErr: true, Err: err}
 		}
-		return StepRes{HasErr: true, Run: probe[map[string]any, map[string]any](r, in)}
+		return StepRes{HasErr: true, Run: probe[wIn, map[string]any](r, in)}
 	}
 	panic("unknown op " + c.Op)
 }
